@@ -221,6 +221,7 @@ type c51tv struct {
 	kind int // 0 absent, 1 now+off, 2 literal JSON
 	off  int64
 	lit  string
+	ext  bool // non-integer spelling: crossed with correctly signed tokens only
 }
 
 func c51tvJSON(v c51tv, now int64) (string, bool) {
@@ -311,36 +312,54 @@ func c51strictB64(s string) ([]byte, bool) {
 	return b, err == nil
 }
 
-// c51timeVerdict judges exp/nbf of a decoded claims object against now.
+// c51timeVerdict judges exp/nbf of a decoded claims object against now. The claim is judged by
+// its numeric VALUE (RFC 7519 NumericDate may be non-integer), however it is spelled. An
+// instant less than one second away from now is not judged (RFC 7519 allows a small leeway).
 func c51timeVerdict(claims map[string]interface{}, now int64) c51verdict {
 	out := c51verdict{c51Valid, ""}
-	num := func(v interface{}) (*big.Float, bool) {
+	num := func(v interface{}) (*big.Float, string, bool) {
 		n, ok := v.(json.Number)
 		if !ok {
-			return nil, false
+			return nil, "", false
 		}
 		f, _, err := big.ParseFloat(string(n), 10, 200, big.ToNearestEven)
-		return f, err == nil
+		if err != nil {
+			return nil, "", false
+		}
+		class := ""
+		if strings.ContainsAny(string(n), ".eE") {
+			class = ":non-integer-spelling"
+		}
+		if new(big.Float).Abs(f).Cmp(new(big.Float).SetMantExp(big.NewFloat(1), 63)) >= 0 {
+			class = ":out-of-int64-range" // however spelled
+		}
+		return f, class, true
 	}
-	nowF := new(big.Float).SetInt64(now)
+	// d = value - now, compared with -1, 0, +1
+	rel := func(f *big.Float) (leM1, le0, ge1 bool) {
+		d := new(big.Float).Sub(f, new(big.Float).SetInt64(now))
+		return d.Cmp(big.NewFloat(-1)) <= 0, d.Sign() <= 0, d.Cmp(big.NewFloat(1)) >= 0
+	}
 	if v, ok := claims["exp"]; ok {
-		if f, ok := num(v); !ok {
+		if f, class, ok := num(v); !ok {
 			out = c51verdict{c51Silent, "exp-not-a-number"}
-		} else if c := f.Cmp(nowF); c < 0 {
+		} else if leM1, _, ge1 := rel(f); leM1 {
 			reason := "expired:exp-in-the-past"
 			if f.Sign() >= 0 && f.Cmp(big.NewFloat(1)) < 0 { // 0 <= exp < 1
 				reason = "expired:exp-zero"
 			}
-			return c51verdict{c51Invalid, reason}
-		} else if c == 0 { // RFC 7519 allows a small leeway; the boundary instant is not judged
-			out = c51verdict{c51Silent, "exp-equals-now"}
+			return c51verdict{c51Invalid, reason + class}
+		} else if !ge1 {
+			out = c51verdict{c51Silent, "exp-within-a-second-of-now"}
 		}
 	}
 	if v, ok := claims["nbf"]; ok {
-		if f, ok := num(v); !ok {
+		if f, class, ok := num(v); !ok {
 			out = c51verdict{c51Silent, "nbf-not-a-number"}
-		} else if f.Cmp(nowF) > 0 {
-			return c51verdict{c51Invalid, "not-yet-valid:nbf-in-the-future"}
+		} else if _, le0, ge1 := rel(f); ge1 {
+			return c51verdict{c51Invalid, "not-yet-valid:nbf-in-the-future" + class}
+		} else if !le0 {
+			out = c51verdict{c51Silent, "nbf-within-a-second-of-now"}
 		}
 	}
 	return out
@@ -510,16 +529,36 @@ func c51jwtRun(e *c51env, s *c51jsetup) {
 	abs := c51tv{name: "absent"}
 	at := func(name string, off int64) c51tv { return c51tv{name: name, kind: 1, off: off} }
 	lit := func(name, j string) c51tv { return c51tv{name: name, kind: 2, lit: j} }
-	exps := []c51tv{abs, at("now-1h", -3600), at("now-1", -1), at("now", 0), at("now+1", 1), at("now+1h", 3600), lit("zero", "0"), lit("string", `"4102444800"`)}
-	nbfs := []c51tv{abs, at("now-1", -1), at("now", 0), at("now+1", 1), at("now+1h", 3600)}
-	iats := []c51tv{abs, at("now+1h", 3600)}
+	// non-integer spellings of instants (RFC 7519 NumericDate is a JSON number, not an integer)
+	frac := func(name string, off int64, suffix string) c51tv {
+		return c51tv{name: name, kind: 2, lit: fmt.Sprintf("%d%s", now+off, suffix), ext: true}
+	}
+	expo := func(name string, off int64) c51tv { // exact exponent spelling, e.g. 9.466812e8
+		d := fmt.Sprintf("%d", now+off)
+		m := strings.TrimRight(d[1:], "0")
+		if m == "" {
+			m = "0"
+		}
+		return c51tv{name: name, kind: 2, lit: fmt.Sprintf("%s.%se%d", d[:1], m, len(d)-1), ext: true}
+	}
+	xlit := func(name, j string) c51tv { return c51tv{name: name, kind: 2, lit: j, ext: true} }
+	exps := []c51tv{abs, at("now-1h", -3600), at("now-1", -1), at("now", 0), at("now+1", 1), at("now+1h", 3600), lit("zero", "0"), lit("string", `"4102444800"`),
+		frac("now-1h.5", -3600, ".5"), frac("now-1h.0", -3600, ".0"), expo("now-1h-exponent", -3600),
+		frac("now+1h.5", 3600, ".5"), frac("now+1h.0", 3600, ".0"), expo("now+1h-exponent", 3600), xlit("1e30", "1e30")}
+	nbfs := []c51tv{abs, at("now-1", -1), at("now", 0), at("now+1", 1), at("now+1h", 3600),
+		frac("now+1h.5", 3600, ".5"), frac("now+1h.0", 3600, ".0"), expo("now+1h-exponent", 3600),
+		frac("now-1h.5", -3600, ".5"), expo("now-1h-exponent", -3600), xlit("1e30", "1e30")}
+	iats := []c51tv{abs, at("now+1h", 3600), frac("now-1h.5", -3600, ".5"), frac("now+1h.5", 3600, ".5")}
 	if r.Thorough() {
-		exps = append(exps, at("now-1d", -86400), at("now+1d", 86400), lit("one", "1"), lit("half", "0.5"), lit("now-0.5", fmt.Sprintf("%d.5", now-1)), lit("negative", "-1"), lit("null", "null"))
-		nbfs = append(nbfs, at("now-1h", -3600), lit("zero", "0"), lit("string", `"0"`))
-		iats = append(iats, at("now-1", -1), at("now+1", 1))
+		exps = append(exps, at("now-1d", -86400), at("now+1d", 86400), lit("one", "1"), lit("half", "0.5"), lit("now-0.5", fmt.Sprintf("%d.5", now-1)), lit("negative", "-1"), lit("null", "null"),
+			xlit("1e-3", "1e-3"), xlit("9.4e8-past", "9.4e8"), xlit("1.0E9-future", "1.0E9"), xlit("-1e30", "-1e30"), frac("now-1.75", -2, ".25"), frac("now+1.75", 1, ".75"),
+			xlit("2^63", "9223372036854775808"), xlit("1e19", "1e19"))
+		nbfs = append(nbfs, at("now-1h", -3600), lit("zero", "0"), lit("string", `"0"`),
+			xlit("1.0E9-future", "1.0E9"), xlit("9.4e8-past", "9.4e8"), frac("now+1.25", 1, ".25"), frac("now+0.5", 0, ".5"), xlit("2^63", "9223372036854775808"), xlit("1e19", "1e19"), xlit("-1e30", "-1e30"))
+		iats = append(iats, at("now-1", -1), at("now+1", 1), expo("now+1h-exponent", 3600), xlit("1e30", "1e30"))
 	}
 	hosts := []string{"a.example.org", "b.example.org"}
-	r.Set("jwt_bounds", fmt.Sprintf("products %v x %d alg symbols x %d key materials x 6 signature forms x exp %d x nbf %d x iat %d (canonical header); %d Authorization forms and token shapes on the time-free subset",
+	r.Set("jwt_bounds", fmt.Sprintf("products %v x %d alg symbols x %d key materials x 6 signature forms x exp %d x nbf %d x iat %d (non-integer spellings only with correctly signed tokens; canonical header); %d Authorization forms and token shapes on the time-free subset",
 		s.order, len(c51algs), len(s.mats), len(exps), len(nbfs), len(iats), c51jForms))
 
 	// Part 1: tokens x products, canonical Authorization form.
@@ -532,9 +571,15 @@ func c51jwtRun(e *c51env, s *c51jsetup) {
 				if !e.mine() {
 					continue
 				}
+				// non-integer spellings are crossed with correctly signed tokens only
+				extOK := form == c51sigValid && (m.name == "secretA" || m.name == "secretB" || m.name == "secretC" || m.name == "rsa-priv-1") &&
+					(a.name == a.sign)
 				for _, exp := range exps {
 					for _, nbf := range nbfs {
 						for _, iat := range iats {
+							if (exp.ext || nbf.ext || iat.ext) && !extOK {
+								continue
+							}
 							token, built := "", false
 							for _, product := range s.order {
 								for _, host := range hosts {
